@@ -107,7 +107,7 @@ class C19(Prop):
         "call was delayed and one passed immediately; distinct = (delta, gap sequence) hash"
     )
     quick_runs = 30000
-    thorough_runs = 500000
+    thorough_runs = 300000
 
     def families(self, tier):
         return [("direct-sync", 4), ("direct-async", 2), ("session", 2), ("exhaustive-small", 1), ("overshoot", 1), ("ctor", 1)]
@@ -142,7 +142,7 @@ class C19(Prop):
             return {"kind": "session", "flavour": rng.choice(["sync", "async"]), "agent": {"mib": rows, "communities": [sess["community"]]}, "sessions": [sess], "ops": ops, "latency_ns": rng.choice([1001, 1_000_001]), "rps": rps}
         if family == "exhaustive-small":
             delta = rng.randint(1, 3)
-            return {"kind": "exhaustive", "delta": delta, "rps": NS / delta, "t0": rng.choice([0, 5, 10**15]), "length": 4 if tier == "quick" else 5}
+            return {"kind": "exhaustive", "delta": delta, "rps": NS / delta, "t0": rng.choice([0, 5, 10**15]), "length": 4 if (tier == "quick" or delta == 3) else 5}
         r = rng.random()
         if r < 0.3:
             delta = rng.choice([1, 2, 3, 7, 10, 999, 1000, 1001])
